@@ -152,8 +152,12 @@ JudgeInput(r, tx, i, rs, keys) ==
     ELSE LET ok == [a \in 1..Len(ders) |-> [b \in 1..Len(keys) |-> EvalT(EcdsaTerm(keys[b], digest, ders[a]), r.facts).b = <<1>>]] IN
          [v |-> IF CMS(ok, Len(ders), Len(keys), 1, 1) THEN "valid" ELSE "checkmultisig-fails", need |-> <<>>]
 
-JudgeTx(r, raw) ==
-    LET p == ParseTx(raw) IN
+\* everything a SIGHASH_ALL signature of this transaction commits to apart from the spent output itself
+BodyOf(p) == IF ~p.ok THEN NoBody
+             ELSE [version |-> p.tx.version, locktime |-> p.tx.locktime,
+                   ins |-> [i \in 1..Len(p.tx.ins) |-> [txid |-> p.tx.ins[i].txid, vout |-> p.tx.ins[i].vout, seq |-> p.tx.ins[i].seq]],
+                   outs |-> p.tx.outs]
+JudgeParsed(r, p) ==
     IF ~p.ok THEN [v |-> "unparsable", need |-> <<>>]
     ELSE LET rs == ScriptBytes(r)
              keys == ScriptKeys(r)
@@ -166,16 +170,23 @@ JudgeTx(r, raw) ==
          IF need # <<>> THEN [v |-> "need", need |-> need]
          ELSE IF \A i \in 1..Len(js) : js[i].v = "valid" THEN [v |-> "valid", need |-> <<>>]
          ELSE [v |-> js[CHOOSE i \in 1..Len(js) : js[i].v # "valid"].v, need |-> <<>>]
+JudgeTx(r, raw) == LET p == ParseTx(raw)
+                       j == JudgeParsed(r, p) IN [v |-> j.v, need |-> j.need, body |-> BodyOf(p)]
 
 \* ------------------------------------------------------------------ kind "ceremony"
-A(a) == [op |-> a.op, w |-> a.w, v |-> a.v, form |-> a.form]
+\* the event as an action of Cosign.tla; the body a proposer chose is what its transaction shows
+A(e, cons) == [op |-> e.a.op, w |-> e.a.w, v |-> e.a.v, form |-> e.a.form,
+               body |-> IF e.tx > 0 THEN cons[e.tx].body ELSE NoBody]
 \* first clause in which the observation e of the target wallet differs from candidate state st ("" = consistent)
 \* cons: verdicts of JudgeTx per distinct raw transaction
 Why(r, cfg, st, e, cons, rs) ==
-    LET cp == st.copy[TargetOf(A(e.a))]
+    LET cp == st.copy[TargetOf(e.a)]
         valid == Valid(cfg, cp)
         sendop == e.a.op \in {"send", "send_to"} IN
-    IF e.nsig # NSig(cp) THEN "signature-count"
+    IF e.tx > 0 /\ cons[e.tx].body # cp.body
+    THEN (IF e.a.op = "handoff" THEN "hand-off-changes-what-the-signatures-commit-to: " \o e.a.form
+          ELSE "action-changes-what-the-signatures-commit-to")
+    ELSE IF e.nsig # NSig(cp) THEN "signature-count"
     ELSE IF (e.verified \/ e.verify) /\ ~valid THEN "verifies-with-fewer-than-m-signers"
     ELSE IF ~(e.verified /\ e.verify) /\ valid THEN "m-signers-do-not-verify"
     ELSE IF e.rs # <<>> /\ e.rs # rs THEN "redeemscript-differs-from-reference"
@@ -205,7 +216,7 @@ RECURSIVE Walk(_, _, _, _, _, _, _)
 Walk(r, cfg, C, cons, rs, i, T) ==
     IF i > Len(r.events) THEN [v |-> "ok", at |-> 0, dev |-> DevsOf(C)]
     ELSE LET e == r.events[i]
-             a == A(e.a)
+             a == A(e, cons)
              N == UNION { {[st |-> x, dev |-> c.dev] : x \in Act(cfg, c.st, a, {})}
                           \cup {[st |-> x, dev |-> IF Dev \in SetOf(c.dev) THEN c.dev ELSE Append(c.dev, Dev)] :
                                    x \in Act(cfg, c.st, a, {Dev}) \ Act(cfg, c.st, a, {})} : c \in C }
